@@ -8,6 +8,7 @@ package lib
 import (
 	"context"
 	"fmt"
+	"github.com/refraction-networking/conjure/internal/verifhook"
 	"net"
 	"strings"
 	"sync"
@@ -503,6 +504,17 @@ func TestVerifC09Stress(t *testing.T) {
 				}
 			}(p)
 		}
+		// and one producer delivers every message four times back to back, so that several workers hold duplicates of the
+		// same registration at the same moment
+		prod.Add(1)
+		go func() {
+			defer prod.Done()
+			for i := range msgs {
+				for k := 0; k < 4; k++ {
+					regChan <- msgs[(i+61)%nRegs]
+				}
+			}
+		}()
 		// connection handlers
 		for h := 0; h < 4; h++ {
 			aux.Add(1)
@@ -588,6 +600,61 @@ func TestVerifC09Stress(t *testing.T) {
 		if !c09WatchProgress(rec, auxDone, progress, round) {
 			return
 		}
+		// a quiet tail: handlers, sweeper and reloader have stopped, and four producers deliver nothing but duplicates of
+		// registrations that are tracked already.  (The race detector works on happens-before: while writers keep taking
+		// the registry lock, two unsynchronised readers are ordered through them and go unreported.)
+		// The four producers send the same sequence, and the yield point between the duplicate check and the duplicate's
+		// Track call is a rendezvous for up to four workers (50 ms at most): they then enter Track for the same
+		// registration together.
+		var bmu sync.Mutex
+		var waiting []chan struct{}
+		verifhook.Set(func(point string) {
+			if point != "ingest:dup-before-track" {
+				return
+			}
+			bmu.Lock()
+			ch := make(chan struct{})
+			waiting = append(waiting, ch)
+			if len(waiting) >= 4 {
+				for _, w := range waiting {
+					close(w)
+				}
+				waiting = nil
+			}
+			bmu.Unlock()
+			select {
+			case <-ch:
+			case <-time.After(50 * time.Millisecond):
+				bmu.Lock()
+				for _, w := range waiting {
+					select {
+					case <-w:
+					default:
+						close(w)
+					}
+				}
+				waiting = nil
+				bmu.Unlock()
+			}
+		})
+		var tail sync.WaitGroup
+		for p := 0; p < 4; p++ {
+			tail.Add(1)
+			go func(p int) {
+				defer tail.Done()
+				for i := range msgs {
+					select {
+					case regChan <- msgs[i]:
+					case <-time.After(20 * time.Second):
+						return
+					}
+				}
+			}(p)
+		}
+		tail.Wait()
+		kitWait(20*time.Second, func() bool { return len(regChan) == 0 })
+		time.Sleep(100 * time.Millisecond)
+		verifhook.Set(nil)
 		cancel()
 		// an idle channel after cancel is C09's shutdown scenario; here just unblock the distributor
 		select {
@@ -646,14 +713,14 @@ func TestVerifC09Stress(t *testing.T) {
 			rec.Violation("maps-disagree:after-stress", "registrations and timeout records are not in bijection after the stress mix", map[string]interface{}{"registrations": nReg, "timeout_records": nTo, "orphans": orphan})
 		}
 		rec.Count("evaluations", 1)
-		rec.Count("deliveries", 3*nRegs)
+		rec.Count("deliveries", 11*nRegs)
 		rec.Count("lookups", int(lookups.Load()))
 		rec.Count("activations", int(activations.Load()))
 		rec.Count("sweeps", int(sweeps.Load()))
 		rec.Count("reloads", int(reloads.Load()))
 		rec.Distinct("nontrivial", round, lookups.Load(), sweeps.Load())
 		if rec.WantSample() {
-			rec.Sample(map[string]interface{}{"round": round, "deliveries": 3 * nRegs, "lookups": lookups.Load(), "activations": activations.Load(), "sweeps": sweeps.Load(), "reloads": reloads.Load(), "tracked_at_end": nReg})
+			rec.Sample(map[string]interface{}{"round": round, "deliveries": 11 * nRegs, "lookups": lookups.Load(), "activations": activations.Load(), "sweeps": sweeps.Load(), "reloads": reloads.Load(), "tracked_at_end": nReg})
 		}
 	}
 }
